@@ -147,7 +147,14 @@ def conc_bp_single(schema, C, f, kind, a):
         # every non-unset member (defaults included) is passed to the constructor, which marks the message present
         return conc_bp(schema, C, f["msg"], a["m"])
     if k == "ts":
-        return av.us_dt(av.unint(a["us"]))
+        dt = av.us_dt(av.unint(a["us"]))
+        if a.get("tz"):            # the same instant, expressed in another time zone (offset in minutes)
+            from datetime import timedelta, timezone
+            try:
+                dt = dt.astimezone(timezone(timedelta(minutes=a["tz"])))
+            except OverflowError:
+                pass
+        return dt
     if k == "dur":
         return av.us_td(av.unint(a["us"]))
     if k == "wrapv":
